@@ -87,7 +87,58 @@ def random_tables(n: int, seed: int) -> List[dict]:
     return out
 
 
+def _cyclic(U) -> bool:
+    edges = {NF + 1 + j: [x for x in u["xs"] if x in WR] for j, u in enumerate(U)}
+    state = {}
+
+    def visit(w):
+        if state.get(w) == 1:
+            return True
+        if state.get(w) == 2:
+            return False
+        state[w] = 1
+        if any(visit(v) for v in edges[w]):
+            return True
+        state[w] = 2
+        return False
+    return any(visit(w) for w in WR)
+
+
+def with_siblings(tables: List[dict], seed: int) -> List[dict]:
+    """append, for every table set that contains raising entries, its fault-free sibling (every raising entry
+    replaced by a non-raising one) and link the two through "sib" (1-based index, 0 = none)"""
+    rng = random.Random(seed)
+    out = [dict(t, sib=0) for t in tables]
+    for i, t in enumerate(tables):
+        faulty = any(u["k"] in ("raise", "iterfail") for u in t["U"]) or any(e["k"] == "raise" for e in t["E"]) or any(t["C"])
+        if not faulty or _cyclic(t["U"]):
+            continue        # the reference has no finite flattening on cyclic unwrap tables
+        U = []
+        for j, u in enumerate(t["U"]):
+            if u["k"] == "iterfail":
+                U.append({"k": "iter", "xs": u["xs"]})
+            elif u["k"] == "raise":
+                w = NF + 1 + j
+                tg = FR + LF + [v for v in WR if v > w]
+                U.append(rng.choice([{"k": "none", "xs": []}, {"k": "seq", "xs": [rng.choice(tg) for _ in range(rng.choice([0, 1, 2]))]}]))
+            else:
+                U.append(u)
+        E = []
+        for j, e in enumerate(t["E"]):
+            if e["k"] == "raise":
+                f = j + 1
+                tg = [g for g in FR if g > f] + WR + LF
+                E.append(rng.choice([{"k": "none", "xs": []}, {"k": "replace", "xs": []},
+                                     {"k": "insert", "xs": [rng.choice(tg)]}, {"k": "replace", "xs": [rng.choice(tg)]}]))
+            else:
+                E.append(e)
+        out.append({"root": t["root"], "U": U, "E": E, "C": [False] * NF, "sib": 0})
+        out[i]["sib"] = len(out)
+    return out
+
+
 def spec_results(tables: List[dict], name: str, fixed: bool = True, timeout: int = 600) -> TLCResult:
+    tables = [t if "sib" in t else dict(t, sib=0) for t in tables]
     d = BUILD / "m1"
     d.mkdir(parents=True, exist_ok=True)
     path = d / f"{name}_given.json"
